@@ -40,7 +40,7 @@ PRE, DEV = 0, 1
 class VThread:
   __slots__ = ('tid', 'name', 'sem', 'real', 'state', 'pred', 'deadline',
                'timed_out', 'yielded', 'service', 'exc', 'target', 'nobj',
-               'what', 'sleeping', 'pyobj', 'result', 'uid', 'nchild', 'vc', 'spin')
+               'what', 'sleeping', 'pyobj', 'result', 'uid', 'nchild', 'vc', 'spin', 'spinning', 'last_run')
 
   def __init__(self, tid, name, target):
     self.tid, self.name, self.target = tid, name, target
@@ -62,6 +62,8 @@ class VThread:
     self.nchild = 0
     self.vc = {}
     self.spin = {}
+    self.spinning = False
+    self.last_run = 0
 
   def __repr__(self):
     return f'<T{self.tid} {self.name} {self.state} {self.what}>'
@@ -97,7 +99,7 @@ class Scheduler:
   """One scheduler object == one execution."""
 
   TICK = 5.0
-  SPIN_LIMIT = 40
+  SPIN_LIMIT = 12
 
   def __init__(self, prefix=(), *, mode='preempt', max_steps=20000,
                max_clock=3.0e4, keep_events=False, snapshot=None,
@@ -135,6 +137,7 @@ class Scheduler:
     vt = VThread(len(self.threads), name or f't{len(self.threads)}', target)
     vt.real = _rt.Thread(target=self._boot, args=(vt,), daemon=True,
                          name=f'v{vt.tid}:{vt.name}')
+    vt.last_run = self.steps
     parent = self.current
     if parent is None:
       vt.uid = '0'
@@ -252,6 +255,7 @@ class Scheduler:
       self.events.append((vt.tid, kind, obj, site, round(self.clock, 3)))
     if self.hb:
       self._hb_update(vt, kind, obj)
+    vt.last_run = self.steps
     self.steps += 1
     self.clock += 0.001
     if self.steps > self.max_steps:
@@ -273,6 +277,7 @@ class Scheduler:
         t.yielded = False
         if t.spin:
           t.spin.clear()
+          t.spinning = False
 
   _READS = frozenset(('rd', 'q-empty'))
 
@@ -322,7 +327,14 @@ class Scheduler:
     n = cur.spin.get(key, 0) + 1
     cur.spin[key] = n
     if n > self.SPIN_LIMIT:
-      cur.yielded = True
+      cur.spinning = True
+    if cur.spinning:
+      # While it spins, the thread gives way at every point where somebody
+      # else can run (so a lock it releases inside the loop can be taken);
+      # where nobody can, it yields at the repeated point only, and time passes.
+      if n > self.SPIN_LIMIT or any(
+          self._is_enabled(t) for t in self.threads if t is not cur):
+        cur.yielded = True
     nxt = self._pick(cur=cur, kind=kind)
     self._switch(cur, nxt)
 
@@ -430,15 +442,14 @@ class Scheduler:
         pass
       self.fail('deadlock', {'threads': self.describe()})
     cur_enabled = cur is not None and cur in enabled
-    # canonical order: running thread first, then ascending ids (preempt mode)
-    # or round-robin successor order (delay mode)
+    # canonical order: the running thread first, then the others by how long
+    # they have been waiting (least recently run first: a fair default that
+    # cannot starve a newly enabled thread behind two pollers)
     if cur_enabled:
       enabled.remove(cur)
-      if self.mode == 'delay':
-        enabled.sort(key=lambda t: (t.tid - cur.tid) % len(self.threads))
+    enabled.sort(key=_wait_key)
+    if cur_enabled:
       enabled.insert(0, cur)
-    elif cur is not None and self.mode == 'delay':
-      enabled.sort(key=lambda t: (t.tid - cur.tid) % len(self.threads))
     n = len(enabled)
     if n == 1:
       return enabled[0]
@@ -512,6 +523,10 @@ class Scheduler:
 
 def _true():
   return True
+
+
+def _wait_key(t):
+  return (t.last_run, t.tid)
 
 
 def _site():
